@@ -298,6 +298,13 @@ def declare_paths(e):
         return [(s, Val(TAbs("Path"), f(recv.t)))]
     e.method_models[("Path", "resolve")] = m_resolve
 
+    # other spellings of a path (absolute(), expanduser(), os.path.abspath ...) are NOT resolve(): symlinks and '..' stay
+    def m_absolute(eng, s, recv, name, args, kw, node):
+        f = eng.uf("path_" + name, [P], P)
+        return [(s, Val(TAbs("Path"), f(recv.t)))]
+    for nm in ("absolute", "expanduser"):
+        e.method_models[("Path", nm)] = m_absolute
+
     def m_is_relative_to(eng, s, recv, name, args, kw, node):
         f = eng.uf("path_is_relative_to", [P, P], z3.BoolSort())
         return [(s, Val(BOOL, f(recv.t, eng.coerce(args[0], TAbs("Path")).t)))]
@@ -748,6 +755,9 @@ def declare_header_sections(e):
     prev = e.method_models.get(("Style", "*"))
 
     def m_style2(eng, s, recv, name, args, kw, node):
+        if name in ("can_handle_single", "can_handle_multi"):
+            f = eng.uf("ghost_can_" + name.split("_")[-1], [ST], z3.BoolSort())
+            return [(s, Val(BOOL, f(recv.t)))]
         if name != "comment_at_first_character":
             return prev(eng, s, recv, name, args, kw, node)
         text = eng.coerce(args[0], STR)
